@@ -4,20 +4,31 @@ A *description* is a JSON-able dict
 
     {"layers": [layer, ...], "n_comparams": int}
     layer   = {"name", "parent": None | 0, "dops": [dop, ...], "services": [svc, ...],
-               "comparam_refs": [[comparam index, value], ...]}
+               "comparam_refs": [[comparam index, value], ...],
+               optional "table": None | {"name", "key_dop": short name of an own IDENTICAL DOP}}
     dop     = {"name", "bits": 8|16|24|32, "type": "A_UINT32"|"A_INT32",
                optional "compu": None (IDENTICAL) | {"offset": int, "factor": int != 0} (LINEAR),
                optional "phys": physical base data type (default: the coded type; anything else needs LINEAR)}
     svc     = {"name", "uid", "semantic": str|None, "request": msg, "pos": [msg, ...], "neg": [msg, ...]}
     msg     = {"name", "params": [param, ...]}
-    param   = {"kind": "CC", "name", "pos": int|None, "bits", "value", "type", "semantic": str|None}
-            | {"kind": "VAL", "name", "pos": int|None, "dop": <dop short name>, "semantic": str|None}
+    param   = {"kind", "name", "pos": int|None, "semantic": str|None, ...}
+        CC  CODED-CONST             "bits", "value", "type"
+        NRC NRC-CONST               "bits", "values": [int, ...], "type"
+        VAL VALUE                   "dop", optional "default": int|None (PHYSICAL-DEFAULT-VALUE, IDENTICAL DOP only)
+        PC  PHYS-CONST              "dop" (IDENTICAL), "value"
+        RES RESERVED                "bits"
+        MR  MATCHING-REQUEST-PARAM  "bits" (8 * BYTE-LENGTH), "rq_pos"
+        SYS SYSTEM                  "dop", "sysparam"
+        LK  LENGTH-KEY              "dop"
+        TK  TABLE-KEY               "table": short name of a table applicable to the layer
+        TS  TABLE-STRUCT            "key": short name of a TK parameter earlier in the same message
 
 Layer 0 is a BASE-VARIANT; a layer with "parent": 0 is an ECU-VARIANT inheriting everything from
 layer 0, a layer with "parent": None is an independent BASE-VARIANT.  All short names (layers,
-services, DOPs) are unique in the whole description, so value inheritance never overrides.
+services, DOPs, tables) are unique in the whole description, so value inheritance never overrides.
 Every service owns its request and responses (no sharing), so an edit of one parameter concerns
-exactly one service.
+exactly one service.  A table has two rows which both refer to the key DOP, so key and struct
+parameter occupy as many bytes as the key DOP.
 
 No odxtools import in this module: it is the reference side of the metamorphic oracle
 (which service was edited how, effective counts, constant request prefixes).
@@ -35,11 +46,25 @@ XSI = 'xmlns:xsi="http://www.w3.org/2001/XMLSchema-instance"'
 SEMANTICS = [None, "DATA", "SERVICE-ID", "SUBFUNCTION", "ID"]
 INT_TYPES = ["A_UINT32", "A_INT32"]
 PHYS_TYPES = ["A_UINT32", "A_INT32", "A_FLOAT64"]
-EDIT_KINDS = ["identity", "add", "delete", "rename", "byte_position", "bit_length", "coded_value",
-              "semantic", "data_type", "linked_dop", "dop_modified"]
-ATTR_LABEL = {  # label used by the tool for the attribute (informational, not asserted)
-    "byte_position": "Byte position", "bit_length": "Bit Length", "coded_value": "Value",
-    "semantic": "Semantic", "data_type": "Data type", "linked_dop": "Linked DOP object"}
+PARAM_KINDS = ["CC", "NRC", "VAL", "PC", "RES", "MR", "SYS", "LK", "TK", "TS"]
+XSI_PARAM_TYPE = {"CC": "CODED-CONST", "NRC": "NRC-CONST", "VAL": "VALUE", "PC": "PHYS-CONST", "RES": "RESERVED",
+                  "MR": "MATCHING-REQUEST-PARAM", "SYS": "SYSTEM", "LK": "LENGTH-KEY", "TK": "TABLE-KEY",
+                  "TS": "TABLE-STRUCT"}
+# attribute edits: kind -> (field of the parameter, parameter kinds it applies to).  These are exactly the
+# attributes Comparison.compare_parameters has a branch for (see notes/C18.md, Round 3)
+ATTR_EDITS = {
+    "byte_position": ("pos", tuple(PARAM_KINDS)),
+    "semantic": ("semantic", tuple(PARAM_KINDS)),
+    "bit_length": ("bits", ("CC", "NRC", "RES", "MR")),
+    "coded_value": ("value", ("CC",)),
+    "coded_values": ("values", ("NRC",)),
+    "data_type": ("type", ("CC", "NRC")),
+    "linked_dop": ("dop", ("VAL", "PC", "SYS", "LK")),
+    "constant_value": ("value", ("PC",)),
+    "default_value": ("default", ("VAL",)),
+}
+EDIT_KINDS = ["identity", "add", "delete", "rename"] + list(ATTR_EDITS) + ["dop_modified"]
+SYSPARAMS = ["TIMESTAMP", "SECOND", "MINUTE", "HOUR", "TIMEZONE", "DAY", "WEEK", "MONTH", "YEAR"]
 
 
 # ---------------------------------------------------------------------------
@@ -54,6 +79,17 @@ def layer_dops(desc, li):
     return out + lay["dops"]
 
 
+def layer_tables(desc, li):
+    """[(owning layer index, table)] applicable to layer li"""
+    lay = desc["layers"][li]
+    out = []
+    if lay["parent"] is not None and desc["layers"][lay["parent"]].get("table"):
+        out.append((lay["parent"], desc["layers"][lay["parent"]]["table"]))
+    if lay.get("table"):
+        out.append((li, lay["table"]))
+    return out
+
+
 def dop_by_name(desc, li, name):
     for d in layer_dops(desc, li):
         if d["name"] == name:
@@ -61,8 +97,26 @@ def dop_by_name(desc, li, name):
     raise KeyError(name)
 
 
-def param_bits(desc, li, p):
-    return p["bits"] if p["kind"] == "CC" else dop_by_name(desc, li, p["dop"])["bits"]
+def table_by_name(desc, li, name):
+    for owner, t in layer_tables(desc, li):
+        if t["name"] == name:
+            return owner, t
+    raise KeyError(name)
+
+
+def param_bits(desc, li, p, msg=None):
+    k = p["kind"]
+    if k in ("CC", "NRC", "RES", "MR"):
+        return p["bits"]
+    if k in ("VAL", "PC", "SYS", "LK"):
+        return dop_by_name(desc, li, p["dop"])["bits"]
+    if k == "TK":
+        owner, t = table_by_name(desc, li, p["table"])
+        return dop_by_name(desc, owner, t["key_dop"])["bits"]
+    if k == "TS":
+        tk = next(q for q in msg["params"] if q["kind"] == "TK" and q["name"] == p["key"])
+        return param_bits(desc, li, tk)
+    raise KeyError(k)
 
 
 def layout(desc, li, msg):
@@ -71,7 +125,7 @@ def layout(desc, li, msg):
     cursor = 0
     for p in msg["params"]:
         start = cursor if p["pos"] is None else p["pos"]
-        end = start + param_bits(desc, li, p) // 8
+        end = start + param_bits(desc, li, p, msg) // 8
         out.append((start, end))
         cursor = end
     return out
@@ -104,7 +158,8 @@ def _assemble_prefix(items, cut: bool) -> bytes:
 
 
 def const_prefix(desc, li, msg, cut=False) -> bytes:
-    """bytes of the leading CODED-CONST parameters, the tool's service key"""
+    """bytes of the leading CODED-CONST parameters, the tool's service key (a PHYS-CONST directly behind
+    them would belong to it as well; the envelope excludes that, see well_formed)"""
     items = []
     for p, (start, end) in zip(msg["params"], layout(desc, li, msg)):
         if p["kind"] != "CC":
@@ -151,9 +206,48 @@ def prefixes_unique(desc) -> bool:
     return True
 
 
+def _identical(d):
+    return d.get("compu") is None and d.get("phys", d["type"]) == d["type"]
+
+
+def _param_ok(desc, li, msg, idx, p, is_request) -> bool:
+    k = p["kind"]
+    if k not in PARAM_KINDS or p.get("semantic") not in SEMANTICS:
+        return False
+    try:
+        if k == "CC":
+            return p["type"] in INT_TYPES and 0 <= p["value"] < (1 << (p["bits"] - 1))
+        if k == "NRC":
+            vs = p["values"]
+            return (p["type"] in INT_TYPES and len(vs) >= 1 and len(set(vs)) == len(vs) and
+                    all(0 <= v < (1 << (p["bits"] - 1)) for v in vs))
+        if k in ("RES", "MR"):
+            return p["bits"] in (8, 16, 24, 32) and (k == "RES" or (not is_request and p["rq_pos"] >= 0))
+        if k in ("VAL", "PC", "SYS", "LK"):
+            d = dop_by_name(desc, li, p["dop"])
+            if k == "PC" or (k == "VAL" and p.get("default") is not None):
+                v = p["value"] if k == "PC" else p["default"]
+                # constants / defaults are physical values: only with an IDENTICAL DOP the model knows they are valid
+                if not (_identical(d) and 0 <= v < (1 << (d["bits"] - 1))):
+                    return False
+            if k == "PC" and is_request and all(q["kind"] in ("CC", "PC") for q in msg["params"][:idx]):
+                return False      # would be part of the constant request prefix
+            if k == "SYS" and p["sysparam"] not in SYSPARAMS:
+                return False
+            return True
+        if k == "TK":
+            table_by_name(desc, li, p["table"])
+            return True
+        if k == "TS":
+            return any(q["kind"] == "TK" and q["name"] == p["key"] for q in msg["params"][:idx])
+    except (KeyError, StopIteration):
+        return False
+    return False
+
+
 def well_formed(desc) -> bool:
-    """inside the envelope: no overlapping parameters, values fit, unique non-empty request prefixes,
-    unique names"""
+    """inside the envelope: no overlapping parameters, values fit, unique request prefixes, unique names,
+    references resolve"""
     names = []
     for li, lay in enumerate(desc["layers"]):
         names.append(lay["name"])
@@ -164,23 +258,22 @@ def well_formed(desc) -> bool:
                 return False
             if d.get("phys", d["type"]) not in PHYS_TYPES or (cm is None and d.get("phys", d["type"]) != d["type"]):
                 return False
+        if lay.get("table"):
+            names.append(lay["table"]["name"])
+            kd = [d for d in lay["dops"] if d["name"] == lay["table"]["key_dop"]]
+            if not kd or not _identical(kd[0]):
+                return False
         for s in lay["services"]:
             names.append(s["name"])
             for m in [s["request"]] + s["pos"] + s["neg"]:
-                if overlaps(desc, li, m):
-                    return False
                 pn = [p["name"] for p in m["params"]]
                 if len(set(pn)) != len(pn):
                     return False
-                for p in m["params"]:
-                    if p["kind"] == "CC":
-                        if not (0 <= p["value"] < (1 << (p["bits"] - 1))):
-                            return False
-                    else:
-                        try:
-                            dop_by_name(desc, li, p["dop"])
-                        except KeyError:
-                            return False
+                for idx, p in enumerate(m["params"]):
+                    if not _param_ok(desc, li, m, idx, p, m is s["request"]):
+                        return False
+                if overlaps(desc, li, m):
+                    return False
     if len(set(names)) != len(names):
         return False
     uids = [s["uid"] for lay in desc["layers"] for s in lay["services"]]
@@ -202,13 +295,22 @@ def roles(svc):
            [["neg", i] for i in range(len(svc["neg"]))]
 
 
+def edit_applies(p, kind) -> bool:
+    field, kinds = ATTR_EDITS[kind]
+    if p["kind"] not in kinds:
+        return False
+    if kind == "default_value":
+        return p.get("default") is not None     # adding / removing a default is not generated
+    return True
+
+
 def apply_edit(desc, edit):
     """returns the edited deep copy.  edit:
         {"kind": "identity"}
         {"kind": "add", "layer": li, "service": svc, "at": index}
         {"kind": "delete", "layer": li, "service": si}
         {"kind": "rename", "layer": li, "service": si, "name": str, "uid": str}
-        {"kind": <attribute>, "layer": li, "service": si, "role": role, "param": pi, "new": value}
+        {"kind": <attribute in ATTR_EDITS>, "layer": li, "service": si, "role": role, "param": pi, "new": value}
         {"kind": "dop_modified", "layer": li, "dop": di, "new": {"compu": ..., "phys": ...}}  the DOP keeps its
             id, short name and coded type; its COMPU-METHOD / PHYSICAL-TYPE change in place
     """
@@ -237,23 +339,22 @@ def apply_edit(desc, edit):
         svc["uid"] = edit["uid"]
         return new
     p = _msg(svc, edit["role"])["params"][edit["param"]]
-    field = {"byte_position": "pos", "bit_length": "bits", "coded_value": "value", "semantic": "semantic",
-             "data_type": "type", "linked_dop": "dop"}[k]
-    if field not in p:
+    if not edit_applies(p, k):
         raise ValueError(f"edit {k} does not apply to a {p['kind']} parameter")
-    if p[field] == edit["new"]:
+    field = ATTR_EDITS[k][0]
+    if p.get(field) == edit["new"]:
         raise ValueError("edit does not change anything")
-    p[field] = edit["new"]
+    p[field] = copy.deepcopy(edit["new"])
     return new
 
 
 def dop_users(desc, dop_name):
-    """{layer short name: [service short names]}: services applicable to the layer with a VALUE parameter
-    (request or any response) that links the DOP (DOP short names are unique in a description)"""
+    """{layer short name: [service short names]}: services applicable to the layer with a parameter
+    (request or any response) that links the DOP directly (DOP short names are unique in a description)"""
     out = {}
     for li, lay in enumerate(desc["layers"]):
         out[lay["name"]] = [s["name"] for _o, s in effective_services(desc, li)
-                            if any(p["kind"] == "VAL" and p["dop"] == dop_name
+                            if any(p.get("dop") == dop_name
                                    for m in [s["request"]] + s["pos"] + s["neg"] for p in m["params"])]
     return out
 
@@ -273,21 +374,30 @@ def attribute_candidates(desc, li, si, role, pi, kind):
     svc = desc["layers"][li]["services"][si]
     msg = _msg(svc, role)
     p = msg["params"][pi]
+    if not edit_applies(p, kind):
+        return []
     cands = []
     if kind == "byte_position":
         end = max(e for _s, e in layout(desc, li, msg))
         cands = [x for x in list(range(0, end + 3)) + [None] if x != p["pos"]]
-    elif kind == "bit_length" and p["kind"] == "CC":
+    elif kind == "bit_length":
         cands = [b for b in (8, 16, 24, 32) if b != p["bits"]]
-    elif kind == "coded_value" and p["kind"] == "CC":
-        hi = 1 << (p["bits"] - 1)
-        cands = sorted({v for v in (0, 1, 2, 3, 0x10, 0x22, 0x2E, 0x31, 0x3E, 0x7F, p["value"] + 1,
-                                    p["value"] - 1, hi - 1) if 0 <= v < hi and v != p["value"]})
+    elif kind in ("coded_value", "constant_value", "default_value"):
+        cur = p[ATTR_EDITS[kind][0]]
+        cands = sorted({v for v in (0, 1, 2, 3, 0x10, 0x22, 0x2E, 0x31, 0x3E, 0x7F, cur + 1, cur - 1)
+                        if v >= 0 and v != cur})
+    elif kind == "coded_values":
+        vs = list(p["values"])
+        fresh = [v for v in (0, 1, 2, 3, 0x10, 0x22, 0x31, 0x7E, vs[0] + 1) if v not in vs]
+        # balanced: one value changed / an alternative added / an alternative removed (or reordered)
+        cands = [[fresh[0]] + vs[1:], vs[:-1] + [fresh[1]], vs + [fresh[0]], [fresh[1]] + vs]
+        if len(vs) > 1:
+            cands += [vs[1:], vs[:-1], vs[1:], vs[::-1]]
     elif kind == "semantic":
         cands = [s for s in SEMANTICS if s != p["semantic"]]
-    elif kind == "data_type" and p["kind"] == "CC":
+    elif kind == "data_type":
         cands = [t for t in INT_TYPES if t != p["type"]]
-    elif kind == "linked_dop" and p["kind"] == "VAL":
+    elif kind == "linked_dop":
         cands = [d["name"] for d in layer_dops(desc, li) if d["name"] != p["dop"]]
     out = []
     for c in cands:
@@ -309,25 +419,48 @@ def attribute_candidates(desc, li, si, role, pi, kind):
 # ---------------------------------------------------------------------------
 # XML emission
 # ---------------------------------------------------------------------------
-def _param_xml(p, lname):
+def _param_xml(p, mid, dopids, tabids):
     sem = f' SEMANTIC="{p["semantic"]}"' if p["semantic"] else ""
     pos = "" if p["pos"] is None else f"<BYTE-POSITION>{p['pos']}</BYTE-POSITION>"
-    if p["kind"] == "CC":
-        return (f'<PARAM{sem} xsi:type="CODED-CONST"><SHORT-NAME>{p["name"]}</SHORT-NAME>{pos}'
-                f'<CODED-VALUE>{p["value"]}</CODED-VALUE>'
-                f'<DIAG-CODED-TYPE BASE-DATA-TYPE="{p["type"]}" xsi:type="STANDARD-LENGTH-TYPE">'
-                f'<BIT-LENGTH>{p["bits"]}</BIT-LENGTH></DIAG-CODED-TYPE></PARAM>')
-    return (f'<PARAM{sem} xsi:type="VALUE"><SHORT-NAME>{p["name"]}</SHORT-NAME>{pos}'
-            f'<DOP-REF ID-REF="{p["dopid"]}"/></PARAM>')
+    k = p["kind"]
+    head = f'<SHORT-NAME>{p["name"]}</SHORT-NAME>{pos}'
+    t = XSI_PARAM_TYPE[k]
+    if k in ("CC", "NRC"):
+        dct = (f'<DIAG-CODED-TYPE BASE-DATA-TYPE="{p["type"]}" xsi:type="STANDARD-LENGTH-TYPE">'
+               f'<BIT-LENGTH>{p["bits"]}</BIT-LENGTH></DIAG-CODED-TYPE>')
+        if k == "CC":
+            body = f'<CODED-VALUE>{p["value"]}</CODED-VALUE>{dct}'
+        else:
+            body = "<CODED-VALUES>" + "".join(f"<CODED-VALUE>{v}</CODED-VALUE>" for v in p["values"]) + \
+                   f"</CODED-VALUES>{dct}"
+        return f'<PARAM{sem} xsi:type="{t}">{head}{body}</PARAM>'
+    if k == "VAL":
+        dv = "" if p.get("default") is None else f'<PHYSICAL-DEFAULT-VALUE>{p["default"]}</PHYSICAL-DEFAULT-VALUE>'
+        return f'<PARAM{sem} xsi:type="{t}">{head}{dv}<DOP-REF ID-REF="{dopids[p["dop"]]}"/></PARAM>'
+    if k == "PC":
+        return (f'<PARAM{sem} xsi:type="{t}">{head}<PHYS-CONSTANT-VALUE>{p["value"]}</PHYS-CONSTANT-VALUE>'
+                f'<DOP-REF ID-REF="{dopids[p["dop"]]}"/></PARAM>')
+    if k == "RES":
+        return f'<PARAM{sem} xsi:type="{t}">{head}<BIT-LENGTH>{p["bits"]}</BIT-LENGTH></PARAM>'
+    if k == "MR":
+        return (f'<PARAM{sem} xsi:type="{t}">{head}<REQUEST-BYTE-POS>{p["rq_pos"]}</REQUEST-BYTE-POS>'
+                f'<BYTE-LENGTH>{p["bits"] // 8}</BYTE-LENGTH></PARAM>')
+    if k == "SYS":
+        return (f'<PARAM{sem} SYSPARAM="{p["sysparam"]}" xsi:type="{t}">{head}'
+                f'<DOP-REF ID-REF="{dopids[p["dop"]]}"/></PARAM>')
+    if k == "LK":
+        return (f'<PARAM{sem} ID="{mid}.{p["name"]}" xsi:type="{t}">{head}'
+                f'<DOP-REF ID-REF="{dopids[p["dop"]]}"/></PARAM>')
+    if k == "TK":
+        return (f'<PARAM{sem} ID="{mid}.{p["name"]}" xsi:type="{t}">{head}'
+                f'<TABLE-REF ID-REF="{tabids[p["table"]]}"/></PARAM>')
+    if k == "TS":
+        return f'<PARAM{sem} xsi:type="{t}">{head}<TABLE-KEY-REF ID-REF="{mid}.{p["key"]}"/></PARAM>'
+    raise KeyError(k)
 
 
-def _msg_xml(tag, mid, m, dopids, extra=""):
-    ps = []
-    for p in m["params"]:
-        q = dict(p)
-        if q["kind"] == "VAL":
-            q["dopid"] = dopids[q["dop"]]
-        ps.append(_param_xml(q, None))
+def _msg_xml(tag, mid, m, dopids, tabids=None):
+    ps = [_param_xml(p, mid, dopids, tabids or {}) for p in m["params"]]
     return (f'<{tag} ID="{mid}"><SHORT-NAME>{m["name"]}</SHORT-NAME><PARAMS>{"".join(ps)}</PARAMS>'
             f'</{tag}>')
 
@@ -350,6 +483,7 @@ def _layer_xml(desc, li):
         pl = desc["layers"][lay["parent"]]
         dopids.update({d["name"]: f'{pl["name"]}.DOP.{d["name"]}' for d in pl["dops"]})
     dopids.update({d["name"]: f'{ln}.DOP.{d["name"]}' for d in lay["dops"]})
+    tabids = {t["name"]: f'{desc["layers"][o]["name"]}.TAB.{t["name"]}' for o, t in layer_tables(desc, li)}
     x = [f'<{tag} ID="{ln}"><SHORT-NAME>{ln}</SHORT-NAME>']
     if lay["dops"]:
         x.append("<DIAG-DATA-DICTIONARY-SPEC><DATA-OBJECT-PROPS>")
@@ -359,25 +493,33 @@ def _layer_xml(desc, li):
                      f'<DIAG-CODED-TYPE BASE-DATA-TYPE="{d["type"]}" xsi:type="STANDARD-LENGTH-TYPE">'
                      f'<BIT-LENGTH>{d["bits"]}</BIT-LENGTH></DIAG-CODED-TYPE>'
                      f'<PHYSICAL-TYPE BASE-DATA-TYPE="{d.get("phys", d["type"])}"/></DATA-OBJECT-PROP>')
-        x.append("</DATA-OBJECT-PROPS></DIAG-DATA-DICTIONARY-SPEC>")
+        x.append("</DATA-OBJECT-PROPS>")
+        if lay.get("table"):
+            t = lay["table"]
+            tid, kid = tabids[t["name"]], dopids[t["key_dop"]]
+            x.append(f'<TABLES><TABLE ID="{tid}"><SHORT-NAME>{t["name"]}</SHORT-NAME><KEY-DOP-REF ID-REF="{kid}"/>' +
+                     "".join(f'<TABLE-ROW ID="{tid}.r{r}"><SHORT-NAME>{t["name"]}_r{r}</SHORT-NAME><KEY>{r}</KEY>'
+                             f'<DATA-OBJECT-PROP-REF ID-REF="{kid}"/></TABLE-ROW>' for r in range(2)) +
+                     "</TABLE></TABLES>")
+        x.append("</DIAG-DATA-DICTIONARY-SPEC>")
     comms, rqs, prs, nrs = [], [], [], []
     for s in lay["services"]:
         u = s["uid"]
         sem = f' SEMANTIC="{s["semantic"]}"' if s["semantic"] else ""
         c = [f'<DIAG-SERVICE ID="{ln}.service.{u}"{sem}><SHORT-NAME>{s["name"]}</SHORT-NAME>',
              f'<REQUEST-REF ID-REF="{ln}.RQ.{s["request"]["name"]}"/>']
-        rqs.append(_msg_xml("REQUEST", f'{ln}.RQ.{s["request"]["name"]}', s["request"], dopids))
+        rqs.append(_msg_xml("REQUEST", f'{ln}.RQ.{s["request"]["name"]}', s["request"], dopids, tabids))
         if s["pos"]:
             c.append("<POS-RESPONSE-REFS>")
             for m in s["pos"]:
                 c.append(f'<POS-RESPONSE-REF ID-REF="{ln}.PR.{m["name"]}"/>')
-                prs.append(_msg_xml("POS-RESPONSE", f'{ln}.PR.{m["name"]}', m, dopids))
+                prs.append(_msg_xml("POS-RESPONSE", f'{ln}.PR.{m["name"]}', m, dopids, tabids))
             c.append("</POS-RESPONSE-REFS>")
         if s["neg"]:
             c.append("<NEG-RESPONSE-REFS>")
             for m in s["neg"]:
                 c.append(f'<NEG-RESPONSE-REF ID-REF="{ln}.NR.{m["name"]}"/>')
-                nrs.append(_msg_xml("NEG-RESPONSE", f'{ln}.NR.{m["name"]}', m, dopids))
+                nrs.append(_msg_xml("NEG-RESPONSE", f'{ln}.NR.{m["name"]}', m, dopids, tabids))
             c.append("</NEG-RESPONSE-REFS>")
         c.append("</DIAG-SERVICE>")
         comms.append("".join(c))
@@ -637,6 +779,13 @@ def xparam_info(p):
         info.update(kind="CC", bits=int(dct.findtext("BIT-LENGTH")), type=dct.get("BASE-DATA-TYPE"),
                     value=int(p.findtext("CODED-VALUE")))
         return info
+    if t == "NRC-CONST":
+        dct = p.find("DIAG-CODED-TYPE")
+        if not _std_int_type(dct):
+            return None
+        info.update(kind="NRC", bits=int(dct.findtext("BIT-LENGTH")), type=dct.get("BASE-DATA-TYPE"),
+                    values=[int(e.text) for e in p.iterfind("CODED-VALUES/CODED-VALUE")])
+        return info
     if t == "VALUE" and p.find("DOP-REF") is not None:
         info.update(kind="VAL", dop=p.find("DOP-REF").get("ID-REF"),
                     has_default=p.find("PHYSICAL-DEFAULT-VALUE") is not None)
@@ -755,6 +904,12 @@ def pdx_apply(pdx, edit):
         p.find("DIAG-CODED-TYPE/BIT-LENGTH").text = str(v)
     elif k == "coded_value":
         p.find("CODED-VALUE").text = str(v)
+    elif k == "coded_values":
+        cvs = p.find("CODED-VALUES")
+        for e in list(cvs):
+            cvs.remove(e)
+        for x in v:
+            ET.SubElement(cvs, "CODED-VALUE").text = str(x)
     elif k == "semantic":
         if v is None:
             p.attrib.pop("SEMANTIC", None)
@@ -772,8 +927,7 @@ def pdx_apply(pdx, edit):
 def pdx_old_value(pdx, edit):
     svc = find_by_id(pdx, "DIAG-SERVICE", edit["service"])
     info = xparam_info(xparams(svc_message(pdx, svc, edit["role"]))[edit["param"]])
-    return info[{"byte_position": "pos", "bit_length": "bits", "coded_value": "value", "semantic": "semantic",
-                 "data_type": "type", "linked_dop": "dop"}[edit["kind"]]]
+    return info[ATTR_EDITS[edit["kind"]][0]]
 
 
 def _dop_signature(d):
@@ -850,7 +1004,16 @@ def pdx_enumerate_edits(pdx):
                     cands += [("semantic", s) for s in ("DATA", "ID", None) if s != info["semantic"]][:2]
                     if info["pos"] is not None:
                         cands.append(("byte_position", info["pos"] + 40))
-                    if info["kind"] == "CC":
+                    if info["kind"] == "NRC":
+                        vs = info["values"]
+                        fresh = [v for v in (vs[0] + 1, 0x7E, 1) if v not in vs and 0 <= v < (1 << (info["bits"] - 1))]
+                        if fresh:
+                            cands += [("coded_values", [fresh[0]] + vs[1:]), ("coded_values", vs + [fresh[0]])]
+                        if len(vs) > 1:
+                            cands.append(("coded_values", vs[:-1]))
+                        if all(v < (1 << (info["bits"] - 1)) for v in vs):
+                            cands.append(("data_type", "A_INT32" if info["type"] == "A_UINT32" else "A_UINT32"))
+                    elif info["kind"] == "CC":
                         unsigned = info["type"] == "A_UINT32"
                         hi = 1 << (info["bits"] - (0 if unsigned else 1))
                         cands += [("coded_value", v) for v in (info["value"] + 1, info["value"] - 1) if 0 <= v < hi][:2]
@@ -869,9 +1032,9 @@ def pdx_enumerate_edits(pdx):
                                 if d is not cur and _dop_signature(d) == sig and _sn(d) not in snrefs:
                                     cands.append(("linked_dop", d.get("ID")))
                     for kind, v in cands:
-                        if (mid, pi, kind, v) in seen_attr:   # message shared with an earlier service
+                        if (mid, pi, kind, repr(v)) in seen_attr:   # message shared with an earlier service
                             continue
-                        seen_attr.add((mid, pi, kind, v))
+                        seen_attr.add((mid, pi, kind, repr(v)))
                         e = {"kind": kind, "service": sid, "role": role, "param": pi, "new": v}
                         if tag == "REQUEST" and kind in ("byte_position", "coded_value", "bit_length", "data_type"):
                             if not pdx_well_formed(pdx_apply(pdx, e)):
